@@ -80,7 +80,7 @@ pub type BatchItem = Item;                            // writer.rs: `use crate::
 
 //@extract src/journal/writer.rs :: Writer :: write_clear props=C03+C02+C09+C04+C13
 //@contract-file fn/writer_write_clear.c
-//@proof before hasher.update(&self.buf)
+//@proof before self.file.write_all(&self.buf)
         proof { assert(self.buf@ =~= enc_clear(keyspace_id)); }
 //@proof before Ok(byte_count)
         proof {
